@@ -126,11 +126,15 @@ func (t *loopTr) findOutBufs() {
 		if t.facts.resliced[o] && !isSlice {
 			t.fail(t.fd, "reslicing of %s, which is not a slice", o.Name())
 		}
-		if !t.facts.indexed[o] {
+		swapped := isArrayPtr(o.Type()) && t.facts.plain[o] > 0
+		if !t.facts.indexed[o] && !swapped {
 			continue
 		}
-		if !isSlice {
-			t.fail(t.fd, "index assignment to `%s`, which is not a slice (writing through an array pointer is not supported)", o.Name())
+		if !isSlice && !t.set.disjoint[t.name] {
+			t.fail(t.fd, "index assignment to `%s`, which is not a slice (writing through an array pointer is only supported under the explicit assumption `%s!disjoint`)", o.Name(), t.fd.Name.Name)
+		}
+		if swapped {
+			t.tagged[o] = len(t.tagged)
 		}
 		for _, k := range t.rets {
 			if k.isSlice() {
@@ -140,7 +144,7 @@ func (t *loopTr) findOutBufs() {
 		}
 		for _, q := range params {
 			if e := elemType(q.Type()); q != o && e != nil && types.Identical(e, elemType(o.Type())) {
-				if !t.set.disjoint[t.fd.Name.Name] {
+				if !t.set.disjoint[t.name] {
 					t.fail(t.fd, "index assignment to the parameter `%s`: its array may overlap that of `%s` (same element type); "+
 						"accepted only under the explicit assumption `%s!disjoint`", o.Name(), q.Name(), t.fd.Name.Name)
 				}
@@ -225,10 +229,27 @@ func (t *loopTr) needsFlow(n ast.Node, returns bool) bool {
 				found = true
 			}
 		case *ast.SliceExpr:
-			found = true
+			if x.Low != nil || x.High != nil || x.Slice3 {
+				found = true
+			}
 		case *ast.ForStmt:
 			if x.Init == nil && x.Post == nil {
 				found = true
+			}
+		case *ast.CallExpr:
+			if sig, _ := t.sigOf(x); sig != nil && sig.flow {
+				found = true
+			}
+			if t.isPanicCall(x) {
+				found = true
+			}
+			if id, ok := unparen(x.Fun).(*ast.Ident); ok && t.flowFn && len(x.Args) >= 2 {
+				// make with a non-constant length: a negative length panics (checked in functions that can panic anyway)
+				if b, ok := t.info.Uses[id].(*types.Builtin); ok && b.Name() == "make" {
+					if tv, ok := t.info.Types[x.Args[1]]; ok && tv.Value == nil {
+						found = true
+					}
+				}
 			}
 		case *ast.BinaryExpr:
 			if t.flowFn && (x.Op == token.SHL || x.Op == token.SHR) && t.signedCount(x.Y) {
@@ -430,6 +451,29 @@ func (t *loopTr) forStmt(s *ast.ForStmt, ind string, m blockMode, rest func(stri
 			safe = last.Sub(last, step).Cmp(min) >= 0
 		}
 	}
+	if !safe && up && k == kInt {
+		// `i <= len(x) - c` (`i < len(x) - c`) with a constant c ≥ k (c ≥ k-1): len(x) ≤ MaxInt, so the bound is at most
+		// MaxInt - c and the last value for which the body runs plus k does not exceed MaxInt
+		if be, ok := unparen(cond.Y).(*ast.BinaryExpr); ok && be.Op == token.SUB {
+			if c, isConst := t.constInt(be.Y); isConst {
+				if lc, ok := unparen(be.X).(*ast.CallExpr); ok && len(lc.Args) == 1 {
+					if id, ok := unparen(lc.Fun).(*ast.Ident); ok {
+						if bi, ok := t.info.Uses[id].(*types.Builtin); ok && bi.Name() == "len" {
+							need := new(big.Int).Set(step)
+							if !incl {
+								need.Sub(need, one)
+							}
+							safe = c.Cmp(need) >= 0
+						}
+					}
+				}
+			}
+		}
+	}
+	if !safe && t.set.nowrap[t.name] && up && !incl {
+		safe = true
+		t.assumedNoWrap = true
+	}
 	if !safe {
 		t.fail(s, "three-clause loop: the loop variable could wrap around before the condition fails (termination is not established); "+
 			"accepted are `<` / `>` with step 1, and constant bounds far enough from the largest / smallest value")
@@ -439,6 +483,9 @@ func (t *loopTr) forStmt(s *ast.ForStmt, ind string, m blockMode, rest func(stri
 		t.fail(s, "three-clause loop: the loop variable %s is assigned in the body", name)
 	}
 	ast.Inspect(cond.Y, func(n ast.Node) bool {
+		if boundConst {
+			return false // a constant (e.g. the length of an array) depends on nothing
+		}
 		switch x := n.(type) {
 		case *ast.Ident:
 			if o := t.info.Uses[x]; o != nil && (plain[o] || indexed[o]) {
